@@ -227,7 +227,7 @@ func runC13(c *Ctx) {
 		c.Anchor("C13.2", fname(fn))
 		num := cs.Common().Args[2]
 		nb, nf, isL := fieldLoad(num)
-		g := w.guardedBy(cs, okFn, -1, "true", func(g *ssa.Call) bool { return isL && nf.Name() == "number" && w.sameKey(g.Call.Args[0], nb) })
+		g := w.guardedBy(cs, okFn, -1, "true", func(g *ssa.Call) bool { return isL && nm(nf) == "number" && w.sameKey(g.Call.Args[0], nb) })
 		if g == nil {
 			c.Bad("C13.2", fname(fn), "sendChannelData", w.instrPos(cs), "ChannelData is sent without the binding being confirmed (bound.ok()) for the number used", w.factsDesc(cs)...)
 			continue
@@ -328,6 +328,29 @@ func runC13(c *Ctx) {
 							}
 						}
 					}
+				}
+			}
+			if !good {
+				// the start-state tests may be alternatives of one `||`: every path to the
+				// transition takes an edge on which the start state is known to be in OK
+				if ok, _ := everyPathToBlock(fn, cs.Block(), func(f Fact) bool {
+					if f.Op == "true" && f.Truth {
+						if wc, _ := callOf(f.X); wc != nil && wc.Call.StaticCallee() == wasReady && wrOK {
+							return true
+						}
+					}
+					if f.Op == "==" && f.Truth {
+						for _, pair := range [][2]ssa.Value{{f.X, f.Y}, {f.Y, f.X}} {
+							if k2, isK2 := constInt(pair[1]); isK2 && okSet[k2] {
+								if sc, _ := callOf(w.resolveLoad(pair[0])); sc != nil && sc.Call.StaticCallee() == stateFn {
+									return true
+								}
+							}
+						}
+					}
+					return false
+				}); ok {
+					good, how = true, "on every path the start state is known to be in OK"
 				}
 			}
 			if good {
@@ -460,7 +483,7 @@ func runC13(c *Ctx) {
 		// returns (n, ibData.from)
 		okRet := false
 		for _, r := range returnsOf(rf) {
-			if _, f, isL := fieldLoad(w.resolveLoad(r.Results[1])); isL && f.Name() == "from" {
+			if _, f, isL := fieldLoad(w.resolveLoad(r.Results[1])); isL && nm(f) == "from" {
 				okRet = true
 			}
 		}
@@ -547,42 +570,105 @@ func ruleClientNumbers(c *Ctx, rule string) {
 // everyPathHas: every CFG path from the function entry to ret takes at least one edge whose
 // condition satisfies pred (path-sensitive; loops are cut by the visited set per state).
 func everyPathHas(fn *ssa.Function, ret *ssa.Return, pred func(Fact) bool) (bool, string) {
-	type key struct {
-		b   *ssa.BasicBlock
-		hit bool
-	}
-	seen := map[key]bool{}
+	return everyPathToBlock(fn, ret.Block(), pred)
+}
+
+// everyPathToBlock: every CFG path from the function entry to block target takes at least
+// one edge whose condition satisfies pred (a disjunction `a || b` guarding the block is two
+// paths, each with its own edge).
+func everyPathToBlock(fn *ssa.Function, target *ssa.BasicBlock, pred func(Fact) bool) (bool, string) {
+	// Paths are explored with the phis resolved by the predecessor taken and boolean
+	// conditions remembered (paths.go), so the compiled form of `a || (b && c)` — a phi of
+	// constants tested by a second branch — does not create infeasible paths.
+	type vkey struct{ b, p *ssa.BasicBlock }
 	okAll := true
 	trail := ""
-	var walk func(b *ssa.BasicBlock, hit bool, path []int)
-	walk = func(b *ssa.BasicBlock, hit bool, path []int) {
-		k := key{b, hit}
-		if seen[k] || !okAll {
+	budget := 50000
+	var walk func(b, from *ssa.BasicBlock, hit bool, env *pathEnv, onPath map[vkey]int, path []int)
+	walk = func(b, from *ssa.BasicBlock, hit bool, env *pathEnv, onPath map[vkey]int, path []int) {
+		if !okAll {
 			return
 		}
-		seen[k] = true
+		budget--
+		if budget < 0 {
+			okAll = false
+			trail = "path budget exhausted"
+			return
+		}
+		k := vkey{b, from}
+		if onPath[k] >= 2 {
+			return
+		}
+		onPath[k]++
+		defer func() { onPath[k]-- }()
 		path = append(path, b.Index)
-		if b == ret.Block() {
+		if b == target {
 			if !hit {
 				okAll = false
 				trail = fmt.Sprint("blocks ", path)
 			}
 			return
 		}
-		for _, s := range b.Succs {
+		env = env.clone()
+		idx := -1
+		for i, p := range b.Preds {
+			if p == from {
+				idx = i
+			}
+		}
+		if idx >= 0 {
+			type upd struct {
+				p *ssa.Phi
+				v ssa.Value
+			}
+			var us []upd
+			for _, in := range b.Instrs {
+				p, ok := in.(*ssa.Phi)
+				if !ok {
+					break
+				}
+				us = append(us, upd{p, env.resolve(p.Edges[idx])})
+			}
+			for _, u := range us {
+				env.phi[u.p] = u.v
+			}
+			for _, in := range b.Instrs {
+				if v, ok := in.(ssa.Value); ok {
+					if _, isPhi := in.(*ssa.Phi); !isPhi {
+						delete(env.truth, v)
+					}
+				}
+			}
+		}
+		iff, isIf := b.Instrs[len(b.Instrs)-1].(*ssa.If)
+		for i, s := range b.Succs {
 			if deadEdge(b, s) {
 				continue
 			}
 			h := hit
+			e2 := env
+			if isIf && b.Succs[0] != b.Succs[1] {
+				if known, t := env.eval(iff.Cond, 0); known && t != (i == 0) {
+					continue // infeasible on this path
+				}
+				e2 = env.clone()
+				e2.learn(iff.Cond, i == 0)
+				// the edge's facts, with phis resolved as on this path
+				for _, f := range normCond(env.resolve(iff.Cond), i == 0) {
+					if pred(f) {
+						h = true
+					}
+				}
+			}
 			for _, f := range edgeFacts(b, s) {
 				if pred(f) {
 					h = true
 				}
 			}
-			walk(s, h, path)
+			walk(s, b, h, e2, onPath, path)
 		}
 	}
-	walk(fn.Blocks[0], false, nil)
+	walk(fn.Blocks[0], nil, false, &pathEnv{phi: map[*ssa.Phi]ssa.Value{}, truth: map[ssa.Value]bool{}}, map[vkey]int{}, nil)
 	return okAll, trail
 }
 
